@@ -951,7 +951,16 @@ func aggregate(b *build, prop string, cfg *propCfg, tier string, seed uint64, al
 			samples = append(samples, map[string]any{"run_index": r.Idx, "case": r.Sample})
 		}
 		seen := map[string]bool{}
+		troubled := false
 		for _, v := range r.Viols {
+			if v.Rule == "harness" {
+				troubled = true // the harness could not read this run: nothing else it says about it counts
+			}
+		}
+		for _, v := range r.Viols {
+			if troubled && v.Rule != "harness" {
+				continue
+			}
 			k := v.Rule + "/" + v.Sig
 			if seen[k] {
 				continue
@@ -987,8 +996,15 @@ func aggregate(b *build, prop string, cfg *propCfg, tier string, seed uint64, al
 	knownSeen := map[string]int{}
 	var newViolLines []string
 	sort.Strings(gorder)
+	harnessTrouble := 0
 	for _, k := range gorder {
 		g := groups[k]
+		if g[0].v.Rule == "harness" {
+			// the harness could not do or read something (child process, unreadable report, step bound): trouble, never a verdict
+			fmt.Fprintf(os.Stderr, "vcheck: harness trouble %s in %d runs (not a verdict); first: run %d: %s\n", k, len(g), g[0].r.Idx, oneLine(g[0].v.Msg))
+			harnessTrouble++
+			continue
+		}
 		if f := knownFor(findings, prop, g[0].v); f != nil {
 			knownSeen[k] = len(g)
 			fmt.Printf("KNOWN-FINDING: property=%s sig=%s %s (seen in %d runs, e.g. run %d: %s)\n", prop, k, f.Text, len(g), g[0].r.Idx, oneLine(g[0].v.Msg))
@@ -1073,6 +1089,9 @@ func aggregate(b *build, prop string, cfg *propCfg, tier string, seed uint64, al
 	writeEvidence(prop, ev)
 	for _, l := range newViolLines {
 		fmt.Println(l)
+	}
+	if exit == 0 && harnessTrouble > 0 {
+		exit = 2
 	}
 	if exit == 0 && unreproduced > 0 {
 		fmt.Fprintf(os.Stderr, "vcheck: %d violation classes did not reproduce in a fresh process and none did: harness nondeterminism (not a verdict)\n", unreproduced)
